@@ -3,6 +3,7 @@ package c04_hist
 import (
 	"fmt"
 	"sort"
+	"strings"
 
 	"verifharness/drv"
 	"verifharness/emit"
@@ -19,6 +20,46 @@ type Profile struct {
 	RefreshOff   int // % of histories with GrantTypeRefreshToken disabled
 	RefreshAtk   int // % of refresh steps that are mutated
 	FlowMutation int // % of flows with a login / callback mutation
+	FaultPct     int // % of flows whose first honest exchange runs while one storage method fails
+	DropPct      int // % of flows during which the client's refresh grant registration is withdrawn
+}
+
+var places = []string{"query", "grant-query", "grant-conflict", "field-conflict"}
+
+// nearMiss: redirect URIs a sloppy comparison might take for u (port, host case, trailing slash,
+// scheme, loopback aliases, default port, extra query)
+func nearMiss(r drv.Rand, u string) string {
+	sch, rest, ok := strings.Cut(u, "://")
+	if !ok { // custom scheme "com.example.app:/cb"
+		return drv.Pick(r, []string{u + "/", strings.ToUpper(u[:1]) + u[1:], strings.Replace(u, ":/", "://", 1), u + "?"})
+	}
+	host, path, _ := strings.Cut(rest, "/")
+	path = "/" + path
+	loop := []string{"127.0.0.1", "localhost", "[::1]", "127.0.0.2", "127.0.0.1:8080", "localhost:49152", "[::1]:80"}
+	var c []string
+	c = append(c, sch+"://"+host+path+"/", sch+"://"+strings.ToUpper(host)+path, strings.ToUpper(sch)+"://"+host+path,
+		sch+"://"+host+":8443"+path, sch+"://"+host+strings.ToUpper(path), sch+"://"+host+path+"?", sch+"://"+host+path+"#f",
+		sch+"://"+host+"/."+path, sch+"://x."+host+path)
+	if sch == "https" {
+		c = append(c, "https://"+host+":443"+path, "http://"+host+path)
+	} else {
+		c = append(c, "http://"+host+":80"+path, "https://"+host+path)
+	}
+	if strings.HasPrefix(host, "127.") || strings.HasPrefix(host, "localhost") || strings.HasPrefix(host, "[::1]") {
+		for _, l := range loop { // same path and query, other loopback spelling / port
+			c = append(c, sch+"://"+l+path, sch+"://"+l+path, "https://"+l+path)
+		}
+	}
+	isLoop := strings.HasPrefix(host, "127.") || strings.HasPrefix(host, "localhost") || strings.HasPrefix(host, "[::1]")
+	for {
+		x := drv.Pick(r, c)
+		if isLoop && r.Chance(3, 4) { // mostly another spelling / port of the loopback interface, same path
+			x = sch + "://" + drv.Pick(r, loop) + path
+		}
+		if x != u {
+			return x
+		}
+	}
 }
 
 var stdScopes = []string{"openid", "profile", "email", "offline_access", "phone", "address"}
@@ -206,6 +247,11 @@ func (g *gen) newFlow(routerMode int) *flow {
 	f := &flow{}
 	f.cl = drv.Pick(g.r, g.w.Clients)
 	f.uri = drv.Pick(g.r, f.cl.Redirects)
+	for _, u := range f.cl.Redirects { // loopback redirects (RFC 8252) are the delicate ones
+		if strings.HasPrefix(u, "http://127.") && g.r.Bool() {
+			f.uri = u
+		}
+	}
 	switch routerMode {
 	case 0:
 		f.router = opfix.Provider
@@ -297,6 +343,15 @@ func (g *gen) newFlow(routerMode int) *flow {
 			plan = append(plan, "code-attack")
 		}
 	}
+	if g.r.Chance(1, 5) || (strings.HasPrefix(f.uri, "http://127.") && g.r.Bool()) {
+		plan = append(plan, "code-nearmiss") // everything right except a look-alike redirect_uri
+	}
+	if g.r.Chance(g.p.FaultPct, 100) {
+		plan = append(plan, "code-fault") // the honest "code" step that follows presents the same code again
+		if g.r.Chance(1, 4) {
+			plan = append(plan, "code-fault")
+		}
+	}
 	if !g.r.Chance(1, 10) {
 		plan = append(plan, "code")
 	}
@@ -319,6 +374,12 @@ func (g *gen) newFlow(routerMode int) *flow {
 	if nref > 0 && g.r.Chance(2, 5) {
 		plan = append(plan, drv.Pick(g.r, []string{"refresh-replay", "refresh-attack"}))
 	}
+	if g.r.Chance(g.p.DropPct, 100) {
+		// the registration loses the refresh grant while the client may hold a refresh token
+		tail := []string{"drop-refresh", "refresh-dropped", "refresh-dropped"}
+		cut := len(plan) - g.r.IntN(nref+1)
+		plan = append(append(append([]string{}, plan[:cut]...), tail...), plan[cut:]...)
+	}
 	f.plan = plan
 	return f
 }
@@ -334,6 +395,16 @@ func (g *gen) rt(f *flow) opfix.Router {
 }
 
 func (g *gen) do(o Op) Out {
+	if (o.Kind == "code" || o.Kind == "refresh") && o.Place == "" {
+		o.Place = "body"
+		if g.r.Chance(1, 3) {
+			o.Place = drv.Pick(g.r, places)
+		}
+		g.tag("place=" + o.Place)
+	}
+	if o.Fault != "" {
+		g.tag("fault=" + o.Fault)
+	}
 	out := g.w.Exec(o)
 	g.h.Ops = append(g.h.Ops, o)
 	g.h.Outs = append(g.h.Outs, out)
@@ -459,6 +530,26 @@ func (g *gen) step(f *flow) {
 	case "code":
 		o := g.honestCode(f)
 		g.settle(f, o, g.do(o))
+	case "code-nearmiss":
+		o := g.honestCode(f)
+		o.URI, o.Mut = nearMiss(g.r, f.uri), "near-miss-uri"
+		g.settle(f, o, g.do(o))
+	case "code-fault":
+		o := g.honestCode(f)
+		o.Fault = drv.Pick(g.r, FaultMethods)
+		if g.r.Chance(1, 3) {
+			o.Fault = "DeleteAuthRequest"
+		}
+		o.Mut = "storage-fault"
+		g.settle(f, o, g.do(o))
+	case "drop-refresh":
+		g.do(Op{Kind: "droprefresh", Router: g.rt(f), Client: f.cl.ID, Mut: "refresh-grant-withdrawn"})
+	case "refresh-dropped":
+		o := g.honestRefresh(f)
+		o.Place = drv.Pick(g.r, []string{"body", "query", "grant-query", "grant-query", "grant-conflict", "field-conflict"})
+		g.tag("place=" + o.Place)
+		o.Mut = "refresh-after-withdrawal"
+		g.settle(f, o, g.do(o))
 	case "code-other":
 		o := g.honestCode(f)
 		if len(f.codes) >= 2 {
@@ -475,7 +566,11 @@ func (g *gen) step(f *flow) {
 		g.settle(f, o, g.do(o))
 	case "code-attack":
 		o := g.honestCode(f)
-		switch g.r.IntN(12) {
+		k := g.r.IntN(12)
+		if g.r.Chance(1, 6) || (strings.HasPrefix(f.uri, "http://127.") && g.r.Chance(1, 3)) {
+			k = 8 // redirect_uri near-misses deserve more weight, most of all for loopback redirects
+		}
+		switch k {
 		case 0, 1, 2, 3:
 			o.Cred, o.Mut = g.badCred(f.cl)
 		case 4:
@@ -495,11 +590,13 @@ func (g *gen) step(f *flow) {
 			o.URI, o.Mut = "", "missing-uri"
 		case 8:
 			o.Mut = "wrong-uri"
-			switch g.r.IntN(3) {
+			switch g.r.IntN(6) {
 			case 0:
 				o.URI = g.otherClient(f.cl.ID).Redirects[0]
 			case 1:
 				o.URI = f.uri + "/x"
+			case 2, 3, 4:
+				o.URI, o.Mut = nearMiss(g.r, f.uri), "near-miss-uri"
 			default:
 				o.URI = f.cl.Redirects[len(f.cl.Redirects)-1]
 				if o.URI == f.uri {
